@@ -126,6 +126,7 @@ class Ctx:
         self.comm = []  # send/recv records
         self.cc = []  # monitor records
         self.problems = []  # harness-side consistency problems (become violations of the checked property)
+        self.exact_probes = []  # (block, slot, iter) at which the fine level was put onto the collocation solution
         self.ctrl = None
         self.max_events = sc.get('max_events', 400000)
         self.verdicts = {tuple(k): v for k, v in self.faults.get('verdicts', {}).get('table', [])}
@@ -304,6 +305,25 @@ HANDLERS = {
 
 def apply_soft(ctx, S, faults):
     for f in faults:
+        if f['kind'] == 'exact':
+            # fixed-point probe: the fine level is put onto the collocation solution of the step (for the initial value it holds)
+            if ctx.shadow is None or S.status.slot != 0:
+                continue
+            L = S.levels[0]
+            P = L.prob
+            if any(u is None for u in L.u):
+                continue
+            U = ctx.shadow.reference_nodes(L.u[0], L.time, L.dt)
+            for m in range(1, L.sweep.coll.num_nodes + 1):
+                g = P.dtype_u(L.u[0])
+                np.asarray(g).reshape(-1)[:] = U[m - 1].real if not np.iscomplexobj(np.asarray(g)) else U[m - 1]
+                L.u[m] = g
+                L.f[m] = P.eval_f(L.u[m], L.time + L.dt * L.sweep.coll.nodes[m - 1])
+            L.status.updated = True
+            ctx.exact_probes.append((ctx.block, S.status.slot, S.status.iter))
+            ctx.res.fault('soft_exact')
+            ctx.log.add('inj', 'soft', ctx.block, S.status.slot, 0, 0, 'exact')
+            continue
         if f['level'] >= len(S.levels):
             continue
         L = S.levels[f['level']]
